@@ -47,8 +47,15 @@ def run(tier, wd):
     # every second spec runs on a program in which two of the variables are declared without a SetByUser pointer
     p2 = dict(p, nosbu=["O:-a", "A:X"])
     specs = g.family(p, 30 if q else 300, core.seed() + 5)
+    # an option written directly in the spec (satisfied by the environment without consuming) in front of positionals with two readings
+    A_, O_, E_, X_, Y_ = g.Opt("-a"), g.Opt("-o"), g.Opt("-e"), g.Arg("X"), g.Arg("Y")
+    for e_ in [g.Seq(g.Optional(A_), g.Optional(X_), Y_), g.Seq(g.Optional(O_), g.Alt(Y_, g.Seq(X_, Y_))), g.Seq(g.Optional(E_), g.Rep(X_), Y_),
+               g.Seq(O_, g.Optional(X_), Y_), g.Seq(g.Optional(A_), g.Optional(O_), g.Optional(X_), g.Optional(Y_), X_)]:
+        st = g.render(p, e_)
+        if st not in [x["str"] for x in specs]:
+            specs.append({"ast": e_, "str": st, "extra": True})
     for k, s_ in enumerate(specs):
-        s_["prog"] = k % 2
+        s_["prog"] = 0 if s_.get("extra") else k % 2
     keys = [g.opt_key(o["names"]) for o in p["opts"]]
     groups, seen = [], set()
     per_spec = 30 if q else 150
@@ -72,6 +79,12 @@ def run(tier, wd):
             seen.add(key)
             k += 1
             groups.append({"rel": "single", "members": [{"si": si, "env": env, "argv": line}]})
+    for si, s in enumerate(specs):
+        if s.get("extra"):
+            lead = [x["a"] for x in g.walk(s["ast"]) if x["k"] == "opt"][:1]
+            for env in (lead, sorted(set(lead + ["-b"]))):
+                for line in (["x"], ["x", "y"], ["x", "y", "z1"]):
+                    groups.append({"rel": "single", "members": [{"si": si, "env": env, "argv": line}]})
     t2 = gc.run_groups(rep, wd, binpath, [p, p2], specs, groups, "multi", law="oracle")
     multi_nontriv = 0
     for grp, pr, rs, v, classes in t2:
@@ -79,16 +92,23 @@ def run(tier, wd):
         if not r.get("ran"):
             continue
         obs = refenum.observed_map(r)
-        if obs not in pr["preds"][0]["acc"]:
-            continue    # not a valid derivation: C02's business
-        bound = set(k for k, _ in obs)
+        acc = pr["preds"][0]["acc"]
+        if obs in acc:
+            bound = set(k for k, _ in obs)
+        else:
+            # not a valid derivation (C02's business) - unless every derivation of the line binds the same variables: then the
+            # flags are determined all the same
+            varsets = set(frozenset(k for k, _ in m) for m in acc)
+            if len(varsets) != 1 or pr["preds"][0]["uncl"] or pr["preds"][0]["accG"] != acc:
+                continue
+            bound = set(next(iter(varsets)))
         wrong = [var for var, flag in r["sbu"].items() if flag != (var in bound)]
         if len(bound) >= 2:
             multi_nontriv += 1
         if wrong:
             m = grp["members"][0]
             rep.violation("spec=%r env=%s argv=%s: SetByUser wrong for %s (flags %s, bound %s)" % (
-                specs[m["si"]]["str"], m["env"], m["argv"], wrong, r["sbu"], sorted(bound)), gc.replay_obj([p, p2], specs, grp, rs, "sbu", pr))
+                specs[m["si"]]["str"], m["env"], m["argv"], wrong, r["sbu"], sorted(bound)), dict(gc.replay_obj([p, p2], specs, grp, rs, "sbu", pr), bound_expected=sorted(bound)))
     rep.cov["distinct_nontrivial"] = nontriv + multi_nontriv
     rep.cov["multi_variable_cases_with_two_or_more_bound"] = multi_nontriv
     rep.cov["rule"] = ("(1) 7 built-in types x option/argument x plain/Ptr x two defaults x environment lists x 0..2 command-line values: Values.tla predicts the flag; "
@@ -110,7 +130,7 @@ def replay(path, wd):
     json.dump(o["progs"], open(pf, "w"))
     m = o["members"][0]
     r = core.run_harness(binpath, "exec", [{"id": 0, "prog": m["prog"], "spec": m["spec"], "env": m["env"], "argv": m["argv"]}], wd, env={"HARNESS_PROGS": pf}, shards=1)[0]
-    bound = set(k for k, _ in refenum.observed_map(r))
+    bound = set(o["bound_expected"]) if "bound_expected" in o else set(k for k, _ in refenum.observed_map(r))
     wrong = [var for var, flag in r.get("sbu", {}).items() if flag != (var in bound)]
     print("replay: %s -> sbu=%s bound=%s wrong=%s" % (m, r.get("sbu"), sorted(bound), wrong))
     return 1 if wrong else 0
